@@ -45,6 +45,10 @@ impl EventGen for SvgElement {
             _ => {
                 if matches!(self.event_range, Some((start, end)) if start != end) {
                     Container(self.clone()).generate_events(context)
+                } else if self.name == "svg" && self.get_attr("xmlns").is_some() {
+                    // As in `Container`: a namespaced <svg> is passed through untouched,
+                    // also when it is written as an empty element.
+                    Ok((self.all_events(context).into(), None))
                 } else {
                     OtherElement(self.clone()).generate_events(context)
                 }
